@@ -390,9 +390,12 @@ pub fn run(tier: &str) -> i32 {
     }
     let core_len = if thorough { 5 } else { 4 };
     n_tok += token_sequences(CORE_TOKENS, core_len, &mut total);
+    if thorough {
+        n_tok += token_sequences(lexer::MEDIUM_TOKENS, 5, &mut total);
+    }
     parts.insert(
         "token_sequences".into(),
-        json!({"full_alphabet": FULL_TOKENS.len(), "full_max_len": full_max, "core_alphabet": CORE_TOKENS.len(), "core_len": core_len, "count": n_tok}),
+        json!({"full_alphabet": FULL_TOKENS.len(), "full_max_len": full_max, "core_alphabet": CORE_TOKENS.len(), "core_len": core_len, "medium_alphabet_len5": if thorough { lexer::MEDIUM_TOKENS.len() } else { 0 }, "count": n_tok}),
     );
     samples.push(|| json!({"token_sequence": seq_text(FULL_TOKENS, 3, 12345)}));
     samples.push(|| json!({"token_sequence": seq_text(CORE_TOKENS, core_len, 777_777)}));
